@@ -27,9 +27,9 @@ type BurstParams struct {
 	MaxN       int    `json:"max_n"`
 	// CloseFault: the close-stream request of one vBucket is applied by the server but its reply is lost (the
 	// library's request times out) while the rebalance closes the stream
-	CloseFault bool   `json:"close_fault"`
-	Hold       bool   `json:"hold"` // adversarially delay the membership subscriber of the bus
-	Tight      bool   `json:"tight"` // only gap 0, sources bus then api-rebalance
+	CloseFault bool `json:"close_fault"`
+	Hold       bool `json:"hold"`  // adversarially delay the membership subscriber of the bus
+	Tight      bool `json:"tight"` // only gap 0, sources bus then api-rebalance
 }
 
 type notif struct {
